@@ -137,13 +137,29 @@ func pointerize(t, base reflect.Type, v reflect.Value) reflect.Value {
 		return v
 	}
 
-	for t != v.Type() {
+	// the pointer types between t and the type of v, outermost first. They are
+	// walked by kind: t or one of the levels may be a NAMED pointer type
+	// (type P *int), which the address of a value never has by itself - the
+	// value would be wrapped in pointers forever.
+	var levels []reflect.Type
+	for cur := t; cur != v.Type(); cur = cur.Elem() {
+		if cur.Kind() != reflect.Ptr {
+			// t is not made of pointers to the type of v
+			return v
+		}
+		levels = append(levels, cur)
+	}
+
+	for i := len(levels) - 1; i >= 0; i-- {
 		if !v.CanAddr() {
 			tmp := reflect.New(v.Type())
 			tmp.Elem().Set(v)
 			v = tmp
 		} else {
 			v = v.Addr()
+		}
+		if v.Type() != levels[i] {
+			v = v.Convert(levels[i])
 		}
 	}
 	return v
